@@ -483,7 +483,7 @@ pub fn run(r: &mut Runner) {
         groups.extend(crate::hist::unary_groups(&[Op::exp2], &[[10.5, 1e-16], [-3.25, 0.0]], [2.0, 0.0]));
         crate::hist::explore(r, "histories: exp/exp2/exp_m1", &groups, 3, &hist_judge, 14u64 << 55);
         // cross-family histories: the same judged calls, preceded by every other public function on the same operands
-        crate::hist::explore_mixed(r, "cross-family histories: any public call, then exp/exp2/exp_m1", &groups[..groups.len().min(2)], 2, &hist_judge, (14u64 << 55) + (1u64 << 53));
+        crate::hist::explore_mixed(r, "cross-family histories: any public call, then exp/exp2/exp_m1", &groups, 2, &hist_judge, (14u64 << 55) + (1u64 << 53));
         // powers: two bases, two exponents, sequences up to length 4 (an LRU of two entries needs A, B, A, A)
         let mut pg: Vec<Vec<HCall>> = vec![];
         for (a, b) in [([3.0, 0.0], [7.0, 0.0]), ([1.5, 1e-17], [1.5, -1e-17]), ([2.0, 0.0], [-2.0, 0.0])] {
